@@ -77,15 +77,30 @@ impl MachineState {
 
             parser.add_lines_read(prior_num_lines_read);
 
-            let term = parser
-                .read_term(&op_dir, Tokens::Default)
-                .map_err(|err| error_after_read_term(err, prior_num_lines_read, &parser))?; // CompilationError::from
+            // layout and comments in front of the end of the stream are not
+            // the beginning of a term: the stream is simply at its end.
+            let at_end = devour_whitespace(&mut parser.lexer)?
+                || parser.lexer.lookahead_char().is_err();
+
+            let term = if at_end {
+                None
+            } else {
+                Some(
+                    parser
+                        .read_term(&op_dir, Tokens::Default)
+                        .map_err(|err| error_after_read_term(err, prior_num_lines_read, &parser))?, // CompilationError::from
+                )
+            };
 
             (term, parser.lines_read() - prior_num_lines_read)
         };
 
         inner.add_lines_read(num_lines_read);
-        write_term_to_heap(&term, &mut self.heap)
+
+        match term {
+            Some(term) => write_term_to_heap(&term, &mut self.heap),
+            None => Err(CompilationError::from(ParserError::unexpected_eof())),
+        }
     }
 }
 
